@@ -1,11 +1,12 @@
 (* C06 model driver. stdin: "<id>\t<op> <repr_a> <a> <repr_b> <b>" ; stdout: "<id>\t<observable>"
-   observable: "ok S <z>" | "ok B <z>" | "err <code>" | "panic <code>" *)
+   observable: "ok S <z>" | "ok B <z>" | "ok T" | "ok F" | "err <code>" | "panic <code>".
+   An op suffixed ".i" (the Int-only entry points value.*Ints) has the same model as the
+   plain op. Mode "spec" (argv[1]) prints the mathematical result instead ("<z>" | "T" | "F" | "zerodiv"),
+   computed with the model's exact Z arithmetic; it is used by the c06.vm stream. *)
 open C06_Int
 open GoSem
 
-let op_of = function
-  | "add" -> OpAdd | "sub" -> OpSub | "mul" -> OpMul | "div" -> OpDiv | "mod" -> OpMod
-  | s -> failwith ("unknown op " ^ s)
+let base_op s = match String.index_opt s '.' with Some i -> String.sub s 0 i | None -> s
 
 let mk r z = match r with "S" -> Small (Zio.z_of_string z) | "B" -> Big (Zio.z_of_string z) | _ -> failwith "repr"
 
@@ -16,11 +17,67 @@ let show = function
   | Panic c -> "panic " ^ Zio.string_of_z c
   | Fatal c -> "fatal " ^ Zio.string_of_z c
 
+let showb b = if b then "ok T" else "ok F"
+
+let eval op x y =
+  match base_op op with
+  | "add" -> show (impl OpAdd x y)
+  | "sub" -> show (impl OpSub x y)
+  | "mul" -> show (impl OpMul x y)
+  | "div" -> show (impl OpDiv x y)
+  | "mod" -> show (impl OpMod x y)
+  | "pow" -> show (Ok (ipow x y))
+  | "neg" -> show (Ok (ineg x))
+  | "gt" -> showb (icmp CGt x y)
+  | "ge" -> showb (icmp CGe x y)
+  | "lt" -> showb (icmp CLt x y)
+  | "le" -> showb (icmp CLe x y)
+  | "eq" -> showb (icmp CEq x y)
+  | "cmp" -> show (Ok (icompare x y))
+  | "shl" -> show (ishl x y)
+  | "shr" -> show (ishr x y)
+  | "and" -> show (Ok (ibit BAnd x y))
+  | "or" -> show (Ok (ibit BOr x y))
+  | "xor" -> show (Ok (ibit BXor x y))
+  | "andnot" -> show (Ok (ibit BAndNot x y))
+  | s -> failwith ("unknown op " ^ s)
+
+(* the mathematical result, independent of representation *)
+let spec_eval op a b =
+  let z = Zio.string_of_z in
+  let sb v = if v then "T" else "F" in
+  match base_op op with
+  | "add" | "sub" | "mul" | "div" | "mod" -> (
+      let o = match base_op op with "add" -> OpAdd | "sub" -> OpSub | "mul" -> OpMul | "div" -> OpDiv | _ -> OpMod in
+      match spec o a b with Some r -> z r | None -> "zerodiv")
+  | "pow" -> z (big_exp a b)
+  | "neg" -> z (BinInt.Z.opp a)
+  | "gt" -> sb (cmp_spec CGt a b)
+  | "ge" -> sb (cmp_spec CGe a b)
+  | "lt" -> sb (cmp_spec CLt a b)
+  | "le" -> sb (cmp_spec CLe a b)
+  | "eq" -> sb (cmp_spec CEq a b)
+  | "ne" -> sb (not (cmp_spec CEq a b))
+  | "cmp" -> z (big_cmp a b)
+  | "shl" -> z (shl_spec a b)
+  | "shr" -> z (shl_spec a (BinInt.Z.opp b))
+  | "and" -> z (bit_z BAnd a b)
+  | "or" -> z (bit_z BOr a b)
+  | "xor" -> z (bit_z BXor a b)
+  | "andnot" -> z (bit_z BAndNot a b)
+  | s -> failwith ("unknown op " ^ s)
+
 let () =
+  let spec_mode = Array.length Sys.argv > 1 && Sys.argv.(1) = "spec" in
   Zio.iter_lines (fun line ->
       match Zio.split_tab line with
       | id :: input :: _ -> (
           match Zio.split_sp input with
-          | [ op; ra; a; rb; b ] -> print_string (id ^ "\t" ^ show (impl (op_of op) (mk ra a) (mk rb b)) ^ "\n")
+          | [ op; ra; a; rb; b ] ->
+              let r =
+                try if spec_mode then spec_eval op (Zio.z_of_string a) (Zio.z_of_string b) else eval op (mk ra a) (mk rb b)
+                with Failure m -> "model-failure " ^ m
+              in
+              print_string (id ^ "\t" ^ r ^ "\n")
           | _ -> print_string (id ^ "\tbad-input\n"))
       | _ -> ())
